@@ -411,11 +411,13 @@ Definition def_array (o : obj) (k : key) (d : desc) (throw : bool) : obj * dres 
 (* ---------- state, callbacks, monad ---------- *)
 (* what the callback does on its n-th invocation: an optional sloppy-mode
    mutation of the receiver, then throw or return *)
-Inductive mut := MNone | MPut (k : key) (v : val) | MDel (k : key).
+(* MAppend v: R[R.length] = v (and, on a non-array, R.length = R.length + 1): what push does in sloppy code *)
+Inductive mut := MNone | MPut (k : key) (v : val) | MDel (k : key) | MAppend (v : val).
 Record cbstep := mkCb { cb_mut : mut; cb_throw : bool; cb_ret : val }.
 
-Record st := mkS { s_o : obj; s_log : list (list val); s_cb : list cbstep }.
-Definition with_o (s : st) (o : obj) : st := mkS o (s_log s) (s_cb s).
+(* s_lg: the receiver's length is a counting getter; every [[Get]] of "length" by a method is logged as [9] *)
+Record st := mkS { s_o : obj; s_log : list (list val); s_cb : list cbstep; s_lg : bool }.
+Definition with_o (s : st) (o : obj) : st := mkS o (s_log s) (s_cb s) (s_lg s).
 
 Inductive R (A : Type) := Ok (a : A) (s : st) | Ex (cls : Z) (s : st).
 Arguments Ok {A}. Arguments Ex {A}.
@@ -442,7 +444,9 @@ Record dialect := mkDia {
   dia_rel : val -> Z -> option Z;            (* relative start/end -> index in [0,len] *)
   dia_cnt : val -> Z -> option Z;            (* deleteCount -> [0,bound] *)
   dia_indexof : val -> Z -> option (option Z);
-  dia_lastindexof : val -> Z -> option (option Z)
+  dia_lastindexof : val -> Z -> option (option Z);
+  dia_tostring_args : bool;    (* Array.prototype.toString forwards its arguments to join *)
+  dia_callable_first : bool    (* every/some/forEach/map/filter/reduce/reduceRight test IsCallable before reading length *)
 }.
 
 Definition es5 : dialect :=
@@ -450,7 +454,8 @@ Definition es5 : dialect :=
         (fun v len => option_map (fun r => clamp_rel r len) (to_integer v))
         (fun v b => option_map (fun r => clamp_cnt r b) (to_integer v))
         (fun v len => option_map (fun r => clamp_indexof r len) (to_integer v))
-        (fun v len => option_map (fun r => clamp_lastindexof r len) (to_integer v)).
+        (fun v len => option_map (fun r => clamp_lastindexof r len) (to_integer v))
+        false false.
 
 Section Methods.
 Variable D : dialect.
@@ -470,20 +475,36 @@ Definition m_get (k : key) : M val := fun s => Ok (get (s_o s) k) s.
 Definition m_has (k : key) : M bool := fun s => Ok (has (s_o s) k) s.
 Definition m_put (k : key) (v : val) : M unit := lift_d (fun o => put o k v true) ;;; ret tt.
 Definition m_del (k : key) : M unit := lift_d (fun o => delete o k true) ;;; ret tt.
-Definition m_len : M Z := v <- m_get KLen ;; opt_m (to_uint32 v).
+Definition m_len : M Z :=
+  fun s =>
+    let s1 := if s_lg s then mkS (s_o s) (s_log s ++ [[VNum 9]]) (s_cb s) true else s in
+    (v <- m_get KLen ;; opt_m (to_uint32 v)) s1.
+(* steps 2-4 of 15.4.4.16-22: len first, then IsCallable *)
+Definition m_len_checked (c : bool) : M Z :=
+  if dia_callable_first D then (if c then m_len else throw 6)
+  else len <- m_len ;; if c then ret len else throw 6.
 
 (* one invocation of the callback: log (this-code :: arguments), then do what the script says *)
 Definition m_call (entry : list val) : M val :=
   fun s =>
-    let s1 := mkS (s_o s) (s_log s ++ [entry]) (s_cb s) in
+    let s1 := mkS (s_o s) (s_log s ++ [entry]) (s_cb s) (s_lg s) in
     match s_cb s with
     | [] => Ok VUndef s1
     | c :: rest =>
-        let s2 := mkS (s_o s1) (s_log s1) rest in
+        let s2 := mkS (s_o s1) (s_log s1) rest (s_lg s) in
         let r := match cb_mut c with
                  | MNone => (s_o s2, DTrue)
                  | MPut k v => put (s_o s2) k v false
                  | MDel k => delete (s_o s2) k false
+                 | MAppend v =>
+                     match to_uint32 (get (s_o s2) KLen) with
+                     | None => (s_o s2, DThrow (-1))
+                     | Some n =>
+                         match put (s_o s2) (KI n) v false with
+                         | (o1, DThrow c) => (o1, DThrow c)
+                         | (o1, _) => if o_arr o1 then (o1, DTrue) else put o1 KLen (VNum (n + 1)) false
+                         end
+                     end
                  end in
         match r with
         | (o', DThrow cls) => Ex cls (with_o s2 o')
@@ -718,8 +739,7 @@ Definition visit (tc : val) (k : Z) : M (option (val * val)) :=
   else ret None.
 
 Definition m_every (args : list marg) : M rv :=
-  len <- m_len ;;
-  if negb (callable (nth_arg args 0)) then throw 6 else
+  len <- m_len_checked (callable (nth_arg args 0)) ;;
   tc <- this_code (nth_arg args 1) ;;
   n <- cnt len ;;
   r <- find_up n 0 (fun k =>
@@ -728,8 +748,7 @@ Definition m_every (args : list marg) : M rv :=
   ret (RVal (VBool (match r with Some _ => false | None => true end))).
 
 Definition m_some (args : list marg) : M rv :=
-  len <- m_len ;;
-  if negb (callable (nth_arg args 0)) then throw 6 else
+  len <- m_len_checked (callable (nth_arg args 0)) ;;
   tc <- this_code (nth_arg args 1) ;;
   n <- cnt len ;;
   r <- find_up n 0 (fun k =>
@@ -738,16 +757,14 @@ Definition m_some (args : list marg) : M rv :=
   ret (RVal (VBool (match r with Some _ => true | None => false end))).
 
 Definition m_foreach (args : list marg) : M rv :=
-  len <- m_len ;;
-  if negb (callable (nth_arg args 0)) then throw 6 else
+  len <- m_len_checked (callable (nth_arg args 0)) ;;
   tc <- this_code (nth_arg args 1) ;;
   n <- cnt len ;;
   for_up n 0 (fun k => visit tc k ;;; ret tt) ;;;
   ret (RVal VUndef).
 
 Definition m_map (args : list marg) : M rv :=
-  len <- m_len ;;
-  if negb (callable (nth_arg args 0)) then throw 6 else
+  len <- m_len_checked (callable (nth_arg args 0)) ;;
   tc <- this_code (nth_arg args 1) ;;
   n <- cnt len ;;
   l <- fold_up n 0 [] (fun k acc =>
@@ -756,8 +773,7 @@ Definition m_map (args : list marg) : M rv :=
   ret (RArr (rev l)).
 
 Definition m_filter (args : list marg) : M rv :=
-  len <- m_len ;;
-  if negb (callable (nth_arg args 0)) then throw 6 else
+  len <- m_len_checked (callable (nth_arg args 0)) ;;
   tc <- this_code (nth_arg args 1) ;;
   n <- cnt len ;;
   l <- fold_up n 0 [] (fun k acc =>
@@ -771,8 +787,7 @@ Definition reduce_step (idx : Z -> val) (k : Z) (acc : val) : M val :=
   if h then v <- m_get (KI k) ;; m_call [VNum 0; acc; v; idx k; VBool true] else ret acc.
 
 Definition m_reduce (args : list marg) : M rv :=
-  len <- m_len ;;
-  if negb (callable (nth_arg args 0)) then throw 6 else
+  len <- m_len_checked (callable (nth_arg args 0)) ;;
   n <- cnt len ;;
   match nth_arg args 1 with
   | Some a =>
@@ -791,8 +806,7 @@ Definition m_reduce (args : list marg) : M rv :=
 
 
 Definition m_reduceright (args : list marg) : M rv :=
-  len <- m_len ;;
-  if negb (callable (nth_arg args 0)) then throw 6 else
+  len <- m_len_checked (callable (nth_arg args 0)) ;;
   n <- cnt len ;;
   match nth_arg args 1 with
   | Some a =>
@@ -845,6 +859,30 @@ Definition m_concat (args : list marg) : M rv :=
     | _, _ => Ex (-1) s
     end.
 
+(* 15.4.4.2: join is looked up and called with NO arguments; a receiver without a callable join
+   (here: every non-array) gets Object.prototype.toString *)
+Definition m_tostring (args : list marg) : M rv :=
+  fun s =>
+    if o_arr (s_o s) then m_join (if dia_tostring_args D then args else []) s
+    else Ok (RVal (VStr [91; 111; 98; 106; 101; 99; 116; 32; 79; 98; 106; 101; 99; 116; 93])) s.
+
+(* 15.4.4.3 with the locale-independent cases of toLocaleString: strings, booleans, integers below 1000 *)
+Definition locale_elem (v : val) : M (list Z) :=
+  match v with
+  | VUndef | VNull => ret []
+  | VNum z => if Z.abs z <? 1000 then opt_m (to_string v) else throw (-1)
+  | VStr _ | VBool _ => opt_m (to_string v)
+  | VDbl _ => throw (-1)
+  end.
+Definition m_tolocalestring (args : list marg) : M rv :=
+  len <- m_len ;;
+  if len =? 0 then ret (RVal (VStr [])) else
+  n <- cnt (len - 1) ;;
+  e0 <- m_get (KI 0) ;;
+  r0 <- locale_elem e0 ;;
+  r <- fold_up n 1 r0 (fun k acc => e <- m_get (KI k) ;; s <- locale_elem e ;; ret (acc ++ [44] ++ s)) ;;
+  ret (RVal (VStr r)).
+
 (* method numbering shared with the harness *)
 Definition method (m : Z) : option (list marg -> M rv) :=
   match m with
@@ -852,7 +890,7 @@ Definition method (m : Z) : option (list marg -> M rv) :=
   | 4 => Some m_shift | 5 => Some m_slice | 6 => Some m_splice | 7 => Some m_unshift
   | 8 => Some m_indexof | 9 => Some m_lastindexof | 10 => Some m_every | 11 => Some m_some
   | 12 => Some m_foreach | 13 => Some m_map | 14 => Some m_filter | 15 => Some m_reduce
-  | 16 => Some m_reduceright | 17 => Some m_concat
+  | 16 => Some m_reduceright | 17 => Some m_concat | 18 => Some m_tostring | 19 => Some m_tolocalestring
   | _ => None
   end.
 
@@ -864,7 +902,8 @@ Inductive op :=
 | ODel (k : key)                           (* delete R[k] in sloppy code *)
 | ODef (k : key) (d : desc)                (* Object.defineProperty(R, k, d) *)
 | OFreeze | OSeal | OPrevent               (* Object.freeze / seal / preventExtensions *)
-| OCall (m : Z) (args : list marg) (cbs : list cbstep).
+| OCall (m : Z) (args : list marg) (cbs : list cbstep)
+| OCallG (m : Z) (args : list marg) (cbs : list cbstep).   (* the same on a receiver whose length is a counting getter *)
 
 (* observation of one step: result (or error class), own properties + extensible flag, callback log *)
 Inductive outcome := Ret (r : rv) | Thrown (cls : Z).
@@ -886,6 +925,16 @@ Definition seal_all (D : dialect) (freeze : bool) (o : obj) : obj * dres :=
 Definition dres_outcome (r : dres) (ok : rv) : outcome :=
   match r with DThrow c => Thrown c | _ => Ret ok end.
 
+Definition call_method (D : dialect) (o : obj) (m : Z) (args : list marg) (cbs : list cbstep) (lg : bool)
+  : obj * outcome * list (list val) :=
+  match method D m with
+  | None => (o, Thrown (-1), [])
+  | Some f => match f args (mkS o [] cbs lg) with
+              | Ok r s => (s_o s, Ret r, s_log s)
+              | Ex c s => (s_o s, Thrown c, s_log s)
+              end
+  end.
+
 Definition step (D : dialect) (o : obj) (x : op) : obj * outcome * list (list val) :=
   match x with
   | OSet k v => let '(o', r) := put D o k v false in (o', dres_outcome r (RVal v), [])
@@ -895,14 +944,8 @@ Definition step (D : dialect) (o : obj) (x : op) : obj * outcome * list (list va
   | OFreeze => let '(o', r) := seal_all D true o in (o', dres_outcome r RThis, [])
   | OSeal => let '(o', r) := seal_all D false o in (o', dres_outcome r RThis, [])
   | OPrevent => (set_ext o false, Ret RThis, [])
-  | OCall m args cbs =>
-      match method D m with
-      | None => (o, Thrown (-1), [])
-      | Some f => match f args (mkS o [] cbs) with
-                  | Ok r s => (s_o s, Ret r, s_log s)
-                  | Ex c s => (s_o s, Thrown c, s_log s)
-                  end
-      end
+  | OCall m args cbs => call_method D o m args cbs false
+  | OCallG m args cbs => call_method D o m args cbs true
   end.
 
 Fixpoint run (D : dialect) (o : obj) (ops : list op) : list obs :=
